@@ -197,7 +197,10 @@ func usesImport(body string, name string) bool {
 			return false
 		}
 		j += i
-		if j == 0 || !isIdentChar(body[j-1]) {
+		// References to imported definitions are always exported names: pkg.Type, pkg.OpenType, etc.
+		k := j + len(q)
+		exported := k < len(body) && body[k] >= 'A' && body[k] <= 'Z'
+		if exported && (j == 0 || !isIdentChar(body[j-1])) {
 			return true
 		}
 		i = j + 1
